@@ -15,7 +15,7 @@ ASSUMPTIONS = ['in-memory ZooKeeper fake (vf/zkfake.py) under the real ZkBackend
                'children watches are replaced by the driver calling the registered handler for every watched path '
                'whose children changed (also by the master\'s own writes) before each cycle',
                'virtual clock by rebinding time.time']
-BUDGET = {'quick': (40, 40.0), 'thorough': (700, 300.0)}
+BUDGET = {'quick': (130, 45.0), 'thorough': (700, 300.0)}
 REQUIRED_REACH = {'*': ['master_restarts', 'moved_between_servers', 'evictions', 'down_expired']}
 
 
